@@ -16,7 +16,7 @@ from pandapower.results_branch import _get_line_results_3ph
 RULE = ("(a) 50 complex triples through sequence_to_phase/phase_to_sequence, 25 (S012,V012) arrays incl. zero voltages "
         "through SVabc_from_SV012; (b) 8 white-box calls of _get_line_results_3ph with chosen sequence quantities; "
         "(c) generated nets (3-6 MV buses, lines with zero-sequence data, 0-1 transformer with vector group Dyn/YNyn/Yzn, "
-        "symmetric loads/sgens with scaling and out-of-service rows; in half of the cases additional asymmetric loads/sgens): "
+        "rated lv voltage 20/21 kV and hv/lv taps, buses fused by closed bus-bus switches with loads on both, symmetric loads/sgens with scaling and out-of-service rows; in half of the cases additional asymmetric loads/sgens): "
         "symmetric nets are compared with runpp, asymmetric ones are checked for per-phase sums and per-phase nodal balance; "
         "non-trivial = the three-phase power flow converged on a net with at least 3 buses")
 ASSUMPTIONS = ["convergence of the sequence iteration of runpp_3ph (outer loop + Newton-Raphson) is not proved; non-convergence of a generated case is counted, not a violation of this property",
@@ -124,10 +124,10 @@ def _gen_net(rng, asym):
         hv = pp.create_bus(net, vn_kv=110.0)
         pp.create_ext_grid(net, hv, vm_pu=rng.choice([1.0, 1.02, 0.98]), **egkw)
         vg, shift = rng.choice([("Dyn", 150.0), ("YNyn", 0.0), ("Yzn", 150.0), ("Dyn", 30.0)])
-        pp.create_transformer_from_parameters(net, hv, buses[0], sn_mva=rng.choice([25.0, 40.0]), vn_hv_kv=110.0, vn_lv_kv=20.0,
+        pp.create_transformer_from_parameters(net, hv, buses[0], sn_mva=rng.choice([25.0, 40.0]), vn_hv_kv=110.0, vn_lv_kv=rng.choice([20.0, 20.0, 21.0]),
                                               vkr_percent=0.41, vk_percent=12.0, pfe_kw=rng.choice([0.0, 14.0]), i0_percent=0.07, shift_degree=shift,
                                               vector_group=vg, vk0_percent=12.0, vkr0_percent=0.41, mag0_percent=100.0, mag0_rx=0.0, si0_hv_partial=0.9,
-                                              tap_side="hv", tap_neutral=0, tap_min=-9, tap_max=9, tap_step_percent=1.5, tap_pos=rng.choice([0, 0, 2]),
+                                              tap_side=rng.choice(["hv", "hv", "lv"]), tap_neutral=0, tap_min=-9, tap_max=9, tap_step_percent=1.5, tap_pos=rng.choice([0, 2, -2]),
                                               tap_changer_type="Ratio")
         feat.add("trafo_" + vg)
     else:
@@ -148,6 +148,19 @@ def _gen_net(rng, asym):
             pp.create_asymmetric_sgen(net, b_, p_a_mw=rng.randint(0, 4) / 32, q_a_mvar=0.0, p_b_mw=rng.randint(0, 4) / 32, q_b_mvar=rng.randint(0, 2) / 32,
                                       p_c_mw=rng.randint(0, 4) / 32, q_c_mvar=0.0, scaling=rng.choice([1.0, 0.5]), in_service=rng.random() < 0.9)
             feat.add("asym_sgen")
+    if rng.random() < 0.4:
+        # two buses fused by a closed bus-bus switch, each with its own loads (they map to one ppc node)
+        a = rng.choice(buses[1:])
+        nb_ = pp.create_bus(net, vn_kv=20.0)
+        pp.create_switch(net, a, nb_, "b", closed=True)
+        pp.create_load(net, nb_, p_mw=rng.randint(2, 12) / 16, q_mvar=rng.randint(0, 4) / 16)
+        if not len(net.load[net.load.bus == a]):
+            pp.create_load(net, a, p_mw=rng.randint(2, 12) / 16, q_mvar=rng.randint(0, 4) / 16)
+        if asym:
+            pp.create_asymmetric_load(net, nb_, p_a_mw=0.125, q_a_mvar=0.03125, p_b_mw=0.0625, q_b_mvar=0.0, p_c_mw=0.03125, q_c_mvar=0.0625)
+            if not len(net.asymmetric_load[net.asymmetric_load.bus == a]):
+                pp.create_asymmetric_load(net, a, p_a_mw=0.0625, q_a_mvar=0.0, p_b_mw=0.125, q_b_mvar=0.03125, p_c_mw=0.0, q_c_mvar=0.03125)
+        feat.add("fused_buses")
     if asym and not len(net.asymmetric_load):
         pp.create_asymmetric_load(net, buses[-1], p_a_mw=0.25, q_a_mvar=0.0625, p_b_mw=0.0625, q_b_mvar=0.0, p_c_mw=0.0, q_c_mvar=0.03125)
         feat.add("asym_load")
@@ -212,19 +225,24 @@ def _asym_oracle(ctx, n3, case):
     # per-phase nodal balance
     eg_buses = {int(b_): e for e, b_ in zip(n3.ext_grid.index, n3.ext_grid.bus.values)}
     known = []
+    lk = n3._pd2ppc_lookups["bus"]
+    groups = {}
     for b_ in n3.bus.index:
+        groups.setdefault(int(lk[b_]), []).append(int(b_))     # buses fused by closed bus-bus switches form one node
+    for node, members in groups.items():
+        b_ = members[0]
         dS, Vk = [], []
         for ph in "abc":
-            p = n3.res_bus_3ph["p_%s_mw" % ph].at[b_]
-            q = n3.res_bus_3ph["q_%s_mvar" % ph].at[b_]
+            p = sum(n3.res_bus_3ph["p_%s_mw" % ph].at[m_] for m_ in members)
+            q = sum(n3.res_bus_3ph["q_%s_mvar" % ph].at[m_] for m_ in members)
             for l in n3.line.index:
                 for side in ("from", "to"):
-                    if n3.line[side + "_bus"].at[l] == b_:
+                    if n3.line[side + "_bus"].at[l] in members:
                         p += n3.res_line_3ph["p_%s_%s_mw" % (ph, side)].at[l]
                         q += n3.res_line_3ph["q_%s_%s_mvar" % (ph, side)].at[l]
             for t in n3.trafo.index:
                 for side in ("hv", "lv"):
-                    if n3.trafo[side + "_bus"].at[t] == b_:
+                    if n3.trafo[side + "_bus"].at[t] in members:
                         p += n3.res_trafo_3ph["p_%s_%s_mw" % (ph, side)].at[t]
                         q += n3.res_trafo_3ph["q_%s_%s_mvar" % (ph, side)].at[t]
             dS.append(complex(p, q))
@@ -232,7 +250,7 @@ def _asym_oracle(ctx, n3, case):
         if all(abs(d.real) <= 2e-6 and abs(d.imag) <= 2e-6 for d in dS):
             continue
         al = n3.asymmetric_load
-        if len(al) and ((al.bus == b_) & (al.type == "delta") & al.in_service).any():
+        if len(al) and (al.bus.isin(members) & (al.type == "delta") & al.in_service).any():
             # a delta-connected load has no per-phase (phase-to-neutral) power: its p_a/p_b/p_c are the powers of the legs
             # ab/bc/ca, so only the three-phase sum is a nodal balance statement at this bus
             ctx.count("delta_load_bus_sum_only")
@@ -240,7 +258,8 @@ def _asym_oracle(ctx, n3, case):
             if abs(tot.real) <= 5e-6 and abs(tot.imag) <= 5e-6:
                 continue
         msg = "bus %d: per-phase nodal balance violated by %s MW/Mvar" % (b_, ["%.3g%+.3gj" % (d.real, d.imag) for d in dS])
-        if int(b_) in eg_buses:
+        if any(m_ in eg_buses for m_ in members):
+            b_ = [m_ for m_ in members if m_ in eg_buses][0]
             # recorded finding: exactly a zero-sequence current error of the ext_grid (same current in all three phases),
             # on an ext_grid whose zero-sequence admittance differs from the negative-sequence one (python twin of G11_eg)
             r = n3.ext_grid.loc[eg_buses[int(b_)]]
